@@ -174,6 +174,33 @@ def run(F, rep, tier):
                 rep.ok('R13.4', fn + ' stream loop', 'consumes or breaks')
             else:
                 rep.viol('R13.4', fn + '|peek-loop-no-progress', '%s on a stream spins forever once the predicate turns false' % fn, c.loc())
+    # ---------------- R13.5
+    rep.rule('R13.5', 'ziplongest advances every argument for every row: in ZipLongest::run the closure that calls next() on the argument '
+             'iterators is driven by a non-short-circuiting adaptor (flat_map / filter_map / map / a for loop), never by map_while, '
+             'take_while, scan, find*, all/any, try_* or position - those stop a row at the first exhausted argument')
+    zl = '<ZipLongest as core::Builtin>::run'
+    SHORT = ('map_while', 'take_while', 'scan', 'find', 'find_map', 'all', 'any', 'position', 'try_for_each', 'try_fold', 'skip_while', 'zip')
+    if not F.has_fn(zl):
+        rep.error('R13.5', 'ZipLongest::run missing')
+    else:
+        zb = F.body(zl)
+        adv = [c_ for c_ in F.closures_of(zl) if any(c.target.endswith('::next') and 'MutObjIntoIter' in c.target for c in F.body(c_).calls)]
+        drivers = []
+        for bb, s_ in zb.aggregates():
+            if s_[2][1] == 'closure' and s_[2][2] in adv:
+                L = s_[1][0]
+                for c in zb.calls:
+                    if any(a[0] in ('m', 'c') and a[1] and a[1][0] == L for a in c.args):
+                        drivers.append(c)
+        if not adv or not drivers:
+            rep.note('R13.5: ZipLongest::run advances its arguments without an adaptor closure (idiom not recognised): not decided')
+            rep.ok('R13.5', 'ZipLongest::run (idiom not recognised)', 'no short-circuiting adaptor found')
+        else:
+            bad = [c for c in drivers if c.target.rsplit('::', 1)[-1] in SHORT]
+            if bad:
+                rep.viol('R13.5', 'ZipLongest|row-short-circuit|%s' % bad[0].target.rsplit('::', 1)[-1], 'ziplongest builds a row with %s: the row ends at the first exhausted argument, so later, longer arguments are dropped from it (ziplongest([1], [10, 20, 30]) loses [20] and [30])' % bad[0].target.rsplit('::', 1)[-1], bad[0].loc())
+            else:
+                rep.ok('R13.5', 'ZipLongest::run', 'arguments advanced through %s' % sorted({c.target.rsplit('::', 1)[-1] for c in drivers}))
     rep.undecided += ['f(xs) == reference(xs) for map/filter/partition/flat_map/flatten/zip/window/group/fold/scan/... (value equations)',
                       'the complete enumeration order of permutations/combinations/subsequences beyond their first element']
     return META
